@@ -153,12 +153,39 @@ Definition c14_proc_run (case obs : sx) : verdict :=
   | _ => BadCase
   end.
 
-(* entry point of the model runner: 0 one check, 1 checkers x events in sequence,
-   2 processor.isMatch, 3 real pipeline + discard *)
+(* a condition whose value list holds something that is not a string (written as an integer in the case):
+   fd/util.go extractConditions refuses the configuration ("can't parse %v as string") *)
+Definition cond_non_string (s : sx) : bool :=
+  match s with
+  | SL [_; SL vs; _] => existsb (fun v => match v with SZ _ => true | _ => false end) vs
+  | _ => false
+  end.
+Definition cond_strings_only (s : sx) : sx :=
+  match s with
+  | SL [p; SL vs; r] => SL [p; SL (filter (fun v => match v with SZ _ => false | _ => true end) vs); r]
+  | _ => s
+  end.
+
+Definition c14_proc_run_cfg (case obs : sx) : verdict :=
+  match case with
+  | SL [tr; SB mname; inv; SL cs; SL evs; SZ now; tb] =>
+      if existsb cond_non_string cs then
+        match c14_proc_run (SL [tr; SB mname; inv; SL (map cond_strings_only cs); SL evs; SZ now; tb]) obs with
+        | BadCase => BadCase                       (* the rest of the case must be well formed *)
+        | _ => exact_verdict obs_reject obs
+        end
+      else c14_proc_run case obs
+  | _ => BadCase
+  end.
+
+(* entry point of the model runner: 0 one check (an event or an antispam datum), 1 checkers x events in
+   sequence / an action chain, 2 processor.isMatch, 3 real pipeline + discard (configuration read by
+   fd.SetupActions / extractConditions) *)
 Definition c14_entry (which : Z) (case obs : sx) : verdict :=
   match which with
   | 0 => c14_check_run case obs
   | 1 => c14_seq_run case obs
-  | 2 | 3 => c14_proc_run case obs
+  | 2 => c14_proc_run case obs
+  | 3 => c14_proc_run_cfg case obs
   | _ => BadCase
   end.
